@@ -704,4 +704,119 @@ theorem openDb_opened (w : World) (c : Ctor) (fresh : Nat) (key : Option Key) (d
 theorem isOpened_iff (o : Outcome) : o.isOpened = true ↔ ∃ key d, o = .opened key d := by
   cases o <;> simp [Outcome.isOpened]
 
+theorem sqlOpen_not_missing (f f' : FileSt) (key : Option Key) (d : Nat) (h : sqlOpen f key = .ok (f', d)) :
+    f' ≠ .missing := by
+  cases key <;> cases f <;> simp [sqlOpen] at h <;> (try (obtain ⟨h1, _⟩ := h; subst h1; simp))
+  rename_i k k' d'
+  split at h <;> simp at h
+  obtain ⟨h1, _⟩ := h; subst h1; simp
+
+theorem finishOpen_file (w : World) (key : Option Key) (hs : w.file ≠ .special) (hm : w.file ≠ .missing) :
+    (finishOpen w key).1.file ≠ .special ∧ (finishOpen w key).1.file ≠ .missing := by
+  unfold finishOpen
+  split
+  · exact ⟨hs, hm⟩
+  · rename_i f d heq
+    have h1 := sqlOpen_special w.file f key d heq
+    have h2 := sqlOpen_not_missing w.file f key d heq
+    split
+    · exact absurd (h1.mp rfl) hs
+    · exact ⟨fun h => hs (h1.mp h), h2⟩
+
+/-- what ANY constructor call, whatever its outcome, does to the bookkeeping -/
+theorem openDb_frame (w : World) (c : Ctor) (fresh : Nat) :
+    (openDb w c fresh).1.stores ≤ w.stores + 1 ∧
+    (fileExists w.file = true → (openDb w c fresh).1.stores = w.stores) ∧
+    (w.file ≠ .special → (openDb w c fresh).1.file ≠ .special ∧ (openDb w c fresh).1.file ≠ .missing) := by
+  have hp := precreate_keeps w
+  obtain ⟨hps, hpr, hpsp, hpn, hpspec, hpex, hpmiss⟩ := hp
+  have hfo : ∀ key, w.file ≠ .special →
+      (finishOpen (precreate w).1 key).1.file ≠ .special ∧ (finishOpen (precreate w).1 key).1.file ≠ .missing :=
+    fun key hs => finishOpen_file _ key (fun h => hs (hpsp.mp h)) (hpn hs).2
+  cases c with
+  | unenc =>
+    simp only [openDb, ctorUnenc]
+    have hk := finishOpen_keeps (precreate w).1 none
+    exact ⟨by rw [hk.1, hps]; omega, fun _ => by rw [hk.1, hps], hfo none⟩
+  | withKey k =>
+    simp only [openDb, ctorWithKey]
+    split
+    · rename_i hcond
+      refine ⟨by show w.stores ≤ w.stores + 1; omega, fun _ => rfl, fun hs => ⟨hs, ?_⟩⟩
+      intro hmiss
+      have hmiss' : w.file = .missing := hmiss
+      simp [hmiss', fileExists] at hcond
+    · have hk := finishOpen_keeps (precreate w).1 (some k)
+      exact ⟨by rw [hk.1, hps]; omega, fun _ => by rw [hk.1, hps], hfo (some k)⟩
+  | new =>
+    simp only [openDb, ctorNew]
+    cases hpw : precreate w with
+    | mk w1 pr =>
+      rw [hpw] at hps hpr hpsp hpn hpex hpmiss hfo; simp only at hps hpr hpsp hpn hpex hpmiss hfo
+      cases pr with
+      | existed =>
+        simp only
+        cases hg : getDbKey w1.ring with
+        | error e => exact ⟨by simp [hps], fun _ => by simp [hps], fun hs => ⟨fun h => hs (hpsp.mp h), (hpn hs).2⟩⟩
+        | ok o =>
+          cases o with
+          | none =>
+            simp only
+            split <;> exact ⟨by simp [hps], fun _ => by simp [hps], fun hs => ⟨fun h => hs (hpsp.mp h), (hpn hs).2⟩⟩
+          | some k =>
+            simp only
+            have hk := finishOpen_keeps w1 (some k)
+            exact ⟨by rw [hk.1, hps]; omega, fun _ => by rw [hk.1, hps], hfo (some k)⟩
+      | created =>
+        simp only
+        have hne : fileExists w.file = true → False := by
+          intro h; have := (hpex h).1; cases this
+        have hg := getOrCreate_keeps w1 fresh
+        cases hgo : getOrCreate w1 fresh with
+        | mk w2 r =>
+          rw [hgo] at hg; simp only at hg ⊢
+          have hw2 : w.file ≠ .special → w2.file ≠ .special ∧ w2.file ≠ .missing := by
+            intro hs; rw [hg.1]; exact ⟨fun h => hs (hpsp.mp h), (hpn hs).2⟩
+          cases r with
+          | error e => exact ⟨by simp; omega, fun h => absurd h (by simpa using hne), hw2⟩
+          | ok k =>
+            simp only
+            have hk := finishOpen_keeps w2 (some k)
+            exact ⟨by rw [hk.1]; omega, fun h => absurd h (by simpa using hne),
+              fun hs => finishOpen_file w2 (some k) (hw2 hs).1 (hw2 hs).2⟩
+      | skipped =>
+        simp only
+        have hne : fileExists w.file = true → False := by
+          intro h; have := (hpex h).1; cases this
+        have hg := getOrCreate_keeps w1 fresh
+        cases hgo : getOrCreate w1 fresh with
+        | mk w2 r =>
+          rw [hgo] at hg; simp only at hg ⊢
+          have hw2 : w.file ≠ .special → w2.file ≠ .special ∧ w2.file ≠ .missing := by
+            intro hs; rw [hg.1]; exact ⟨fun h => hs (hpsp.mp h), (hpn hs).2⟩
+          cases r with
+          | error e => exact ⟨by simp; omega, fun h => absurd h (by simpa using hne), hw2⟩
+          | ok k =>
+            simp only
+            have hk := finishOpen_keeps w2 (some k)
+            exact ⟨by rw [hk.1]; omega, fun h => absurd h (by simpa using hne),
+              fun hs => finishOpen_file w2 (some k) (hw2 hs).1 (hw2 hs).2⟩
+
+theorem runOpens_stores_le_one (w : World) (h : List (Ctor × Key))
+    (hw : w.file ≠ .special ∧ (w.file = .missing → w.stores = 0) ∧ w.stores ≤ 1) :
+    (runOpens w h).stores ≤ 1 := by
+  induction h generalizing w with
+  | nil => exact hw.2.2
+  | cons e es ih =>
+    obtain ⟨c, f⟩ := e
+    apply ih
+    obtain ⟨h1, h2, h3⟩ := hw
+    obtain ⟨f1, f2, f3⟩ := openDb_frame w c f
+    refine ⟨(f3 h1).1, fun hm => absurd hm (f3 h1).2, ?_⟩
+    by_cases hm : w.file = .missing
+    · have := h2 hm; omega
+    · have he : fileExists w.file = true := by
+        revert hm h1; cases w.file <;> simp [fileExists]
+      rw [f2 he]; exact h3
+
 end MdkVerif.OpenMatrix
